@@ -93,6 +93,12 @@ def run_abort(case, chooser):
           # the ABOR (the cancellation then lands while a job is in flight)
           "async": dict(backend="async")}[case["backend"]]
     skw = {"block_size": B, "wait_future_timeout": 1}
+    if case.get("slow_close"):
+        # closing a file takes the backend longer than the time the server allows path operations (the stock memory
+        # and synchronous backends do not enforce path_timeout): the aborted transfer is still winding up for a while
+        bk = dict(backend="slow", delay=0.75, delay_ops=("close",))
+        skw["path_timeout"] = 0.25
+        spy.honour_timeout = False
     if case.get("throttle"):
         # a speed limit: the worker sits in a throttle pause when the ABOR arrives
         skw["write_speed_limit_per_connection" if case["throttle"] == "write" else "read_speed_limit_per_connection"] = B
@@ -379,6 +385,17 @@ def build_items(tier):
             for k in range(1, n + 2):
                 case = {"verb": verb, "size": size, "k": k, "backend": "async", "followup": "again" if k % 2 else "pwd",
                         "data_conn": True, "pipe": pipe}
+                items.append((case, 1 if tier == "quick" else 2, kinds))
+    # closing the file takes long (longer than path_timeout), the next command right behind the ABOR
+    for verb in ("RETR", "STOR", "APPE"):
+        for pipe in ("SYST", "ABOR", "PWD", None):
+            size = 3 * B
+            probe = {"verb": verb, "size": size, "k": 10 ** 9, "backend": "memory", "followup": "pwd", "data_conn": True,
+                     "probe": True, "slow_close": True}
+            n = run_abort(probe, Chooser())["events"]
+            for k in range(1, n + 2):
+                case = {"verb": verb, "size": size, "k": k, "backend": "memory", "followup": "again" if k % 2 else "pwd",
+                        "data_conn": True, "slow_close": True, **({"pipe": pipe} if pipe else {})}
                 items.append((case, 1 if tier == "quick" else 2, kinds))
     # the backend fails when the transfer's file is closed (also when it is closed because of the ABOR)
     for verb in ("RETR", "STOR", "APPE"):
